@@ -193,7 +193,7 @@ class Q:
             body_ev = []
             nv = r.choice(["t", v, "q"])
             b, bx = self.scalar(sub, nv, d + 1, body_ev)
-            cw = call(A(coll, "Where"), [lam(nv, gen.cmp(ast.Gt, b, C(1)))])
+            cw = tc.op_call(r, coll, "Where", lam(nv, gen.cmp(ast.Gt, b, C(1))), 0.5)
             cx = call(A(collx, "Where"), [lam(nv, gen.cmp(ast.Gt, bx, C(1)))])
             ev += body_ev
             return call(A(cw, "Count"), []), call(A(cx, "Count"), [])
@@ -233,13 +233,13 @@ class Q:
             b, bx, _ = self.collection("Jet", nv, d + 1, body_ev)
             self.depth = max(self.depth, d + 1)
             ev += body_ev
-            return call(A(coll, "SelectMany"), [lam(nv, b)]), call(A(collx, "SelectMany"), [lam(nv, bx)])
+            return tc.op_call(r, coll, "SelectMany", lam(nv, b)), call(A(collx, "SelectMany"), [lam(nv, bx)])
         if op == "Where+Select":
             c, cx = self.scalar(sub, nv, d + 1, ev)
-            coll = call(A(coll, "Where"), [lam(nv, gen.cmp(ast.Lt, c, C(5)))])
+            coll = tc.op_call(r, coll, "Where", lam(nv, gen.cmp(ast.Lt, c, C(5))), 0.5)
             collx = call(A(collx, "Where"), [lam(nv, gen.cmp(ast.Lt, cx, C(5)))])
         b, bx = self.top(sub, nv, d + 1, ev)
-        return call(A(coll, "Select"), [lam(nv, b)]), call(A(collx, "Select"), [lam(nv, bx)])
+        return tc.op_call(r, coll, "Select", lam(nv, b)), call(A(collx, "Select"), [lam(nv, bx)])
 
 
 def run_cases(ctx, model, desc, cases):
